@@ -83,7 +83,10 @@ def replay(case):
     out = {'built': True, 'leaks': [], 'opens': None}
     if scn['producer'] == 'idp':
         from saml2_tophat.saml import NameID, NAMEID_FORMAT_TRANSIENT
-        idp = spc.idp_for()
+        if scn.get('spKey') == 'unlabelled':
+            idp = spc.idp_for(metadata=[env.sp_metadata(keys=(('kSpEnc1', None),))])
+        else:
+            idp = spc.idp_for()
         try:
             res = idp.create_authn_response(
                 {'givenName': ['secret-given-é'], 'surName': ['secret-sn']}, 'id1', env.SP_ACS_POST, env.SP,
